@@ -120,18 +120,33 @@ def drv(c):
     Integration.timescale_factor = 1e-3
     return {'res': fl(res)}
 
+def snmfix(c):
+    """the neutral equilibrium density integrated further by one_pop with the same nu, theta0, beta: Proofs/SnmStationary.v
+    proves that the interior entries are reproduced EXACTLY (any grid from 0 to 1, any time step)"""
+    Integration.timescale_factor = c['tf']
+    xx = np.array(c['grid'], dtype=float) if 'grid' in c else Numerics.default_grid(c['pts'])
+    nu, th, beta = c['nu'], c['theta0'], c['beta']
+    phi = PhiManip.phi_1D(xx, nu=nu, theta0=th, beta=beta) if c['via'] == 'phi_1D' else PhiManip.phi_1D_snm(xx, nu=nu, theta0=th, beta=beta)
+    phi = np.asarray(phi, dtype=float)
+    fn = c['as_func']
+    def par(v):
+        return (lambda t, v=v: v) if fn else v
+    out = Integration.one_pop(phi.copy(), xx, c['T'], nu=par(nu), theta0=par(th), beta=par(beta), gamma=par(0.0) if c.get('gamma_arg') else 0, h=c.get('h', 0.5))
+    Integration.timescale_factor = 1e-3
+    return {'before': fl(phi), 'after': fl(out), 'xx': fl(xx)}
+
 def one(c):
     rec = {'id': c['id']}
     try:
-        rec.update({'dens': dens, 'hist': hist, 'stat': stat, 'drv': drv}[c['kind']](c))
+        rec.update({'dens': dens, 'hist': hist, 'stat': stat, 'drv': drv, 'snmfix': snmfix}[c['kind']](c))
     except Exception as e:
         rec['error'] = type(e).__name__ + ': ' + str(e)[:300]
     return rec
 
 def main():
     cases = json.load(sys.stdin)
-    heavy = [c for c in cases if c['kind'] not in ('dens', 'drv')]
-    light = [c for c in cases if c['kind'] in ('dens', 'drv')]
+    heavy = [c for c in cases if c['kind'] not in ('dens', 'drv', 'snmfix')]
+    light = [c for c in cases if c['kind'] in ('dens', 'drv', 'snmfix')]
     out = [one(c) for c in light]
     if len(heavy) > 3:
         import multiprocessing as mp
